@@ -192,7 +192,11 @@ def run(pid, tier, seed, replay_only=None):
         modname, fname = hook.rsplit('.', 1)
         fn = getattr(importlib.import_module(modname), fname)
         try:
-            r = fn(eng, tier, seed)
+            import contextlib as _ctxlib
+            import io as _io
+            # stand-ins run the real library, which may print diagnostics: keep them out of the check's own output
+            with _ctxlib.redirect_stdout(_io.StringIO()), _ctxlib.redirect_stderr(_io.StringIO()):
+                r = fn(eng, tier, seed)
         except Undecided as ex:
             undecided.append((hook, str(ex)))
             continue
